@@ -89,9 +89,96 @@ theorem programKeys_nodup_left (R : Registry) (a b : List Visit) (h : (programKe
 theorem map_key_siteDef (sites : List RegSite) : (sites.map siteDef).map (·.key) = sites.map (·.key) := by
   simp [siteDef, List.map_map, Function.comp_def]
 
+def siteTriple (s : RegSite) : String × String × Pos := (s.key, s.file, s.pos)
+
+/-- `registerAll` stops at the first site whose name is taken: `firstCollision` -/
+theorem registerAll_collision (r : Registry) (sites : List RegSite) :
+    match registerAll r sites with
+    | .ok _ => firstCollision (r.map (·.key)) (sites.map siteTriple) = none
+    | .error s => firstCollision (r.map (·.key)) (sites.map siteTriple) = some (s.file, s.pos) := by
+  induction sites generalizing r with
+  | nil => simp [registerAll, firstCollision]
+  | cons s rest ih =>
+    simp only [registerAll, List.map_cons, firstCollision]
+    by_cases hs : (r.get s.key).isSome = true
+    · have hm : s.key ∈ r.map (·.key) := (get_isSome_iff r s.key).mp hs
+      simp [hs, siteTriple, hm]
+    · have hm : s.key ∉ r.map (·.key) := fun h => hs ((get_isSome_iff r s.key).mpr h)
+      have := ih (r ++ [{ key := s.key, prim := s.prim, arity := s.arity }])
+      simp only [List.map_append, List.map_cons, List.map_nil] at this
+      simpa [hs, siteTriple, hm] using this
+
+theorem firstCollision_append (T : List String) (a b : List (String × String × Pos)) :
+    firstCollision T (a ++ b)
+      = match firstCollision T a with
+        | some x => some x
+        | none => firstCollision (T ++ a.map (·.1)) b := by
+  induction a generalizing T with
+  | nil => simp [firstCollision]
+  | cons x a ih =>
+    simp only [List.cons_append, firstCollision, List.map_cons]
+    split
+    · rfl
+    · rw [ih]; simp only [List.append_assoc, List.singleton_append]
+
+theorem firstCollision_none_of_nodup (T : List String) (l : List (String × String × Pos))
+    (h : (T ++ l.map (·.1)).Nodup) : firstCollision T l = none := by
+  induction l generalizing T with
+  | nil => rfl
+  | cons x l ih =>
+    simp only [firstCollision]
+    have hx : x.1 ∉ T := by
+      intro hm
+      exact (List.nodup_append.mp h).2.2 _ hm _ (by simp) rfl
+    rw [if_neg hx]
+    apply ih
+    simpa [List.append_assoc] using h
+
+theorem visitSites_keys (v : Visit) : (visitSites v).map (·.1) = (visitDefs v).map (·.key) := by
+  cases v <;> simp [visitSites, visitDefs, declDefs, extDefs, List.map_map, Function.comp_def]
+
+theorem sites_keys (vs : List Visit) : (vs.flatMap visitSites).map (·.1) = (vs.flatMap visitDefs).map (·.key) := by
+  induction vs with
+  | nil => rfl
+  | cons v vs ih => simp only [List.flatMap_cons, List.map_append, ih, visitSites_keys]
+
+theorem sites_walkDecl (e : Env) (ns : List String) (d : Decl) :
+    (walkDecl e ns d).regs.map siteTriple = [(declKey ns d, e.file, declPos d)] := by
+  cases d with
+  | enum n c items pos => simp [walkDecl, reg1, declKey, declPos, siteTriple]
+  | flags n c items pos => simp [walkDecl, reg1, declKey, declPos, siteTriple]
+  | record n c fl fp fields der pos => simp [walkDecl, reg1, declKey, declPos, siteTriple, regs_walkFields]
+  | interface n c main fl fp methods props pos =>
+    simp [walkDecl, reg1, declKey, declPos, siteTriple, regs_walkMethods, regs_walkProps]
+  | function n c sig pos => simp [walkDecl, declKey, declPos, siteTriple, regs_walkF]
+  | error n c codes pos => simp [walkDecl, reg1, declKey, declPos, siteTriple, regs_walkCodes]
+
+mutual
+theorem sites_walkContent (e : Env) (ns : List String) (c : Content) :
+    (walkContent e ns c).regs.map siteTriple = (declsOfContent ns c).map (fun x => (declKey x.1 x.2, e.file, declPos x.2)) := by
+  cases c with
+  | decl d => simp [walkContent, declsOfContent, sites_walkDecl]
+  | ns name cm children pos => simp only [walkContent, declsOfContent]; exact sites_walkContents e _ children
+theorem sites_walkContents (e : Env) (ns : List String) (cs : List Content) :
+    (walkContents e ns cs).regs.map siteTriple = (declsOfContents ns cs).map (fun x => (declKey x.1 x.2, e.file, declPos x.2)) := by
+  cases cs with
+  | nil => rfl
+  | cons c cs =>
+    simp only [walkContents, declsOfContents, Collected.regs_append', List.map_append]
+    rw [sites_walkContent e ns c, sites_walkContents e ns cs]
+end
+
+theorem extRegs_triple (file : String) (defs : List ExtDef) :
+    (extRegs file defs).map siteTriple = defs.map (fun d => (d.key, file, d.pos)) := by
+  induction defs with
+  | nil => rfl
+  | cons d ds ih => simp only [extRegs, List.map_cons, ih, siteTriple]
+
 theorem registerAll_cases (r : Registry) (sites : List RegSite) (hr : (r.map (·.key)).Nodup) :
     (((r ++ sites.map siteDef).map (·.key)).Nodup ∧ registerAll r sites = .ok (r ++ sites.map siteDef))
-      ∨ (¬ ((r ++ sites.map siteDef).map (·.key)).Nodup ∧ ∃ s, registerAll r sites = .error s) := by
+      ∨ (¬ ((r ++ sites.map siteDef).map (·.key)).Nodup ∧ ∃ s, registerAll r sites = .error s
+          ∧ firstCollision (r.map (·.key)) (sites.map siteTriple) = some (s.file, s.pos)) := by
+  have hcol := registerAll_collision r sites
   cases h : registerAll r sites with
   | ok r' =>
     have heq := registerAll_ok_eq r r' sites h
@@ -103,7 +190,8 @@ theorem registerAll_cases (r : Registry) (sites : List RegSite) (hr : (r.map (·
     obtain ⟨s, hs, hk⟩ := List.mem_map.mp hb
     exact h2 s hs (hk ▸ ha)
   | error s =>
-    refine Or.inr ⟨fun hnd => ?_, s, rfl⟩
+    rw [h] at hcol
+    refine Or.inr ⟨fun hnd => ?_, s, rfl, hcol⟩
     rw [List.map_append, map_key_siteDef, List.nodup_append] at hnd
     obtain ⟨_, h1, h2⟩ := hnd
     obtain ⟨r', hr'⟩ := (registerAll_ok_iff r sites).mpr
@@ -137,14 +225,15 @@ theorem GoodV.prefix {cfg : Cfg} {a b : List Visit} (h : GoodV cfg (a ++ b)) : G
     set, the registry has grown by the definitions of `new`, bindings only concern finished files, and the diagnostics
     added are a permutation of the pending line diagnostics `lineDs` and of what the specification says about `new`
     read on top of the registry the call started with; or some name is registered twice and the call is aborted by a
-    `TypeResolvingException`. -/
+    `TypeResolvingException` at the place `firstCollision` says. -/
 def PostV (cfg : Cfg) (fs : FS) (st : PState) (acc out : VisitAcc) (stackV : List APath)
     (r : Except Abort (PResult × PState)) (errs0 lineDs : List Diag) : Prop :=
   r = .error .outOfFuel ∨ ∃ new, out.2 = acc.2 ++ new ∧
     (((programKeys st.reg new).Nodup ∧ ∃ res st' errs, r = .ok (res, st') ∧ Visited out.1 stackV st'.imported
         ∧ st'.reg = st.reg ++ new.flatMap visitDefs ∧ ResInv st'.resolved (out.2.filterMap Visit.file?)
         ∧ res.errors = errs0 ++ errs ∧ errs.Perm (lineDs ++ diagsFrom cfg fs st.reg new))
-     ∨ (¬ (programKeys st.reg new).Nodup ∧ ∃ f p, r = .error (.raised "TypeResolvingException" f p)))
+     ∨ (¬ (programKeys st.reg new).Nodup ∧ ∃ f p, r = .error (.raised "TypeResolvingException" f p)
+          ∧ firstCollision (st.reg.map (·.key)) (new.flatMap visitSites) = some (f, p)))
 
 theorem perm_shuffle {α : Type} (a b c d : List α) : ((a ++ b) ++ (c ++ d)).Perm ((a ++ c) ++ (b ++ d)) := by
   simp only [List.append_assoc]
@@ -157,6 +246,7 @@ theorem PostV.seq {cfg : Cfg} {fs : FS} {st : PState} {acc out : VisitAcc} {sv :
     {r : Except Abort (PResult × PState)} {errs0 : List Diag} (v1 : List Visit) (st1 : PState) (acc1 : VisitAcc)
     (errs1 lineDs1 lineDs2 : List Diag)
     (hacc : acc1.2 = acc.2 ++ v1) (hreg : st1.reg = st.reg ++ v1.flatMap visitDefs)
+    (hnd1 : (st1.reg.map (·.key)).Nodup)
     (hperm1 : errs1.Perm (lineDs1 ++ diagsFrom cfg fs st.reg v1))
     (h : PostV cfg fs st1 acc1 out sv r (errs0 ++ errs1) lineDs2) :
     PostV cfg fs st acc out sv r errs0 (lineDs1 ++ lineDs2) := by
@@ -164,25 +254,32 @@ theorem PostV.seq {cfg : Cfg} {fs : FS} {st : PState} {acc out : VisitAcc} {sv :
   · exact Or.inl h
   · have hk : programKeys st.reg (v1 ++ new2) = programKeys st1.reg new2 := by rw [programKeys_append, hreg]
     refine Or.inr ⟨v1 ++ new2, by rw [hout, hacc, List.append_assoc], ?_⟩
-    rcases h with ⟨hnd, res, st', errs, hok, hv, hreg', hres, herr, hperm⟩ | ⟨hnd, f, p, herr⟩
+    rcases h with ⟨hnd, res, st', errs, hok, hv, hreg', hres, herr, hperm⟩ | ⟨hnd, f, p, herr, hfc⟩
     · refine Or.inl ⟨by rw [hk]; exact hnd, res, st', errs1 ++ errs, hok, hv, ?_, hres, ?_, ?_⟩
       · rw [hreg', hreg, List.flatMap_append, List.append_assoc]
       · rw [herr, List.append_assoc]
       · rw [diagsFrom_append, ← hreg]
         exact (List.Perm.append hperm1 hperm).trans (perm_shuffle _ _ _ _)
-    · exact Or.inr ⟨by rw [hk]; exact hnd, f, p, herr⟩
+    · refine Or.inr ⟨by rw [hk]; exact hnd, f, p, herr, ?_⟩
+      have hT : st.reg.map (·.key) ++ (v1.flatMap visitSites).map (·.1) = st1.reg.map (·.key) := by
+        rw [hreg, List.map_append, sites_keys]
+      rw [List.flatMap_append, firstCollision_append, firstCollision_none_of_nodup _ _ (by rw [hT]; exact hnd1)]
+      simp only
+      rw [hT]; exact hfc
 
 /-- a load line that is reported and loads nothing -/
 theorem PostV.shift {cfg : Cfg} {fs : FS} {st : PState} {acc out : VisitAcc} {sv : List APath}
-    {r : Except Abort (PResult × PState)} {errs0 lineDs : List Diag} (d : Diag)
+    {r : Except Abort (PResult × PState)} {errs0 lineDs : List Diag} (d : Diag) (hnd : (st.reg.map (·.key)).Nodup)
     (h : PostV cfg fs st acc out sv r (errs0 ++ [d]) lineDs) : PostV cfg fs st acc out sv r errs0 ([d] ++ lineDs) :=
-  PostV.seq [] st acc [d] [d] lineDs (by simp) (by simp) (by simp [diagsFrom]) h
+  PostV.seq [] st acc [d] [d] lineDs (by simp) (by simp) hnd (by simp [diagsFrom]) h
 
 theorem PostV.of_raised {cfg : Cfg} {fs : FS} {st : PState} {acc out : VisitAcc} {sv : List APath}
     {errs0 lineDs : List Diag} (new1 ext : List Visit) (hout : out.2 = acc.2 ++ (new1 ++ ext))
-    (hnd : ¬ (programKeys st.reg new1).Nodup) (f : String) (p : Pos) :
+    (hnd : ¬ (programKeys st.reg new1).Nodup) (f : String) (p : Pos)
+    (hfc : firstCollision (st.reg.map (·.key)) (new1.flatMap visitSites) = some (f, p)) :
     PostV cfg fs st acc out sv (.error (.raised "TypeResolvingException" f p)) errs0 lineDs :=
-  Or.inr ⟨new1 ++ ext, hout, Or.inr ⟨fun h => hnd (programKeys_nodup_left _ _ _ h), f, p, rfl⟩⟩
+  Or.inr ⟨new1 ++ ext, hout, Or.inr ⟨fun h => hnd (programKeys_nodup_left _ _ _ h), f, p, rfl, by
+    rw [List.flatMap_append, firstCollision_append, hfc]⟩⟩
 
 theorem resInv_congr {m : Resolved} {a b : List APath} (h : a = b) (hr : ResInv m a) : ResInv m b := h ▸ hr
 
@@ -213,7 +310,7 @@ theorem doLoads_sim (cfg : Cfg) (fs : FS) (n : Nat)
           = [mk "FileNotFoundException" "missing-file" (showPath file) l.pathPos] := by simp [lineDiags, hfind]
       rw [doLoads_missing_reported cfg fs _ _ _ _ l ls res st hfind, hline]
       rw [hstep] at hgood ⊢
-      exact (ihl _ st acc hv hnd hres hgood).shift _
+      exact (ihl _ st acc hv hnd hres hgood).shift _ hnd
     | some cp =>
       obtain ⟨c, p⟩ := cp
       cases hs : refersToSelf c spelled with
@@ -230,7 +327,7 @@ theorem doLoads_sim (cfg : Cfg) (fs : FS) (n : Nat)
           rfl
         rw [hd, hline]
         rw [hstep] at hgood ⊢
-        exact (ihl _ st acc hv hnd hres hgood).shift _
+        exact (ihl _ st acc hv hnd hres hgood).shift _ hnd
       | false =>
         have hs' : (c.spelledAbsolute && c.path == spelled) = false := hs
         cases himp : l.isImport with
@@ -247,7 +344,7 @@ theorem doLoads_sim (cfg : Cfg) (fs : FS) (n : Nat)
               simp only [lineDiags, hfind, hs, himp, hstc, if_true, Bool.false_eq_true, if_false]
             rw [doLoads_cycle_reported cfg fs _ _ _ _ l ls res st c p hfind hs' himp hstc, hline]
             rw [hstep] at hgood ⊢
-            exact (ihl _ st acc hv hnd hres hgood).shift _
+            exact (ihl _ st acc hv hnd hres hgood).shift _ hnd
           · have hstc : (stack0 ++ [file]).contains p = false := by simpa using hst
             have hline : lineDiags cfg fs stack0 file spelled l = [] := by
               simp only [lineDiags, hfind, hs, himp, hstc, if_true, Bool.false_eq_true, if_false]
@@ -287,7 +384,7 @@ theorem doLoads_sim (cfg : Cfg) (fs : FS) (n : Nat)
                 rw [hext] at hgood; exact hgood.prefix
               have h1 := ih (stack0 ++ [file]) p c.path { st with imported := st.imported ++ [p] } (acc.1 ++ [p], acc.2)
                 (Visited.enter p hv) hnd hres hgood1
-              rcases h1 with h1 | ⟨new1, hout1, ⟨hnd1, r1, st1, errs1, hok, hv1, hreg1, hres1, herr1, hperm1⟩ | ⟨hnd1, f', p', herr⟩⟩
+              rcases h1 with h1 | ⟨new1, hout1, ⟨hnd1, r1, st1, errs1, hok, hv1, hreg1, hres1, herr1, hperm1⟩ | ⟨hnd1, f', p', herr, hfc⟩⟩
               · rw [h1]; exact Or.inl rfl
               · rw [hok]
                 simp only
@@ -296,11 +393,11 @@ theorem doLoads_sim (cfg : Cfg) (fs : FS) (n : Nat)
                 have hnd_st1 : (st1.reg.map (·.key)).Nodup := by rw [hreg1]; exact hnd1
                 have h2 := ihl { units := res.units ++ r1.units, refs := res.refs ++ r1.refs, errors := res.errors ++ r1.errors }
                   st1 (visitOrder cfg fs n (stack0 ++ [file]) p c.path (acc.1 ++ [p], acc.2)) hv1' hnd_st1 hres1 hgood
-                have := PostV.seq (st := st) (acc := acc) (errs0 := res.errors) new1 st1 _ r1.errors [] _ hout1 hreg1
+                have := PostV.seq (st := st) (acc := acc) (errs0 := res.errors) new1 st1 _ r1.errors [] _ hout1 hreg1 hnd_st1
                   (by rw [herr1]; simpa using hperm1) h2
                 simpa using this
               · rw [herr]
-                exact PostV.of_raised new1 ext (by rw [hext, hout1, List.append_assoc]) hnd1 f' p'
+                exact PostV.of_raised new1 ext (by rw [hext, hout1, List.append_assoc]) hnd1 f' p' hfc
         | false =>
           have hstepE : ∀ (hne : ∀ defs, fs.get p ≠ some (.ext defs)),
               visitStep cfg fs (visitOrder cfg fs n) (stack0 ++ [file]) spelled acc l = acc := by
@@ -323,7 +420,7 @@ theorem doLoads_sim (cfg : Cfg) (fs : FS) (n : Nat)
               rfl
             rw [hd, hline]
             rw [hstepE (fun defs h => by rw [hg] at h; cases h)] at hgood ⊢
-            exact (ihl _ st acc hv hnd hres hgood).shift _
+            exact (ihl _ st acc hv hnd hres hgood).shift _ hnd
           | some fc =>
             cases fc with
             | ext defs =>
@@ -343,7 +440,7 @@ theorem doLoads_sim (cfg : Cfg) (fs : FS) (n : Nat)
               obtain ⟨ext, hext⟩ := foldl_visitStep_extends cfg fs (visitOrder cfg fs n)
                 (fun st p s a => visitOrder_extends cfg fs n st p s a) (stack0 ++ [file]) spelled ls
                 (acc.1, acc.2 ++ [.extern p defs])
-              rcases registerAll_cases st.reg (extRegs (showPath p) defs) hnd with ⟨hk, hok⟩ | ⟨hk, s, herr⟩
+              rcases registerAll_cases st.reg (extRegs (showPath p) defs) hnd with ⟨hk, hok⟩ | ⟨hk, s, herr, hfc⟩
               · rw [hok]
                 simp only
                 rw [extRegs_siteDef] at hk ⊢
@@ -351,12 +448,14 @@ theorem doLoads_sim (cfg : Cfg) (fs : FS) (n : Nat)
                   (by rw [List.filterMap_append]; show ResInv _ (_ ++ []); rw [List.append_nil]; exact hres) hgood
                 have := PostV.seq (st := st) (acc := acc) (errs0 := res.errors) [.extern p defs]
                   { st with reg := st.reg ++ extDefs defs } (acc.1, acc.2 ++ [.extern p defs]) [] [] _ rfl
-                  (by simp [visitDefs]) (by simp [diagsFrom, visitDiags]) (by simpa using h2)
+                  (by simp [visitDefs]) hk (by simp [diagsFrom, visitDiags]) (by simpa using h2)
                 simpa using this
               · rw [herr]
                 simp only
                 rw [extRegs_siteDef] at hk
+                rw [extRegs_triple] at hfc
                 exact PostV.of_raised [.extern p defs] ext (by rw [hext]; simp) (by simpa [programKeys, visitDefs] using hk) _ _
+                  (by simpa [visitSites] using hfc)
             | idl text =>
               have hline : lineDiags cfg fs stack0 file spelled l
                   = [mk "InputParsingException" "bad-extern" (showPath p) default] := by
@@ -368,7 +467,7 @@ theorem doLoads_sim (cfg : Cfg) (fs : FS) (n : Nat)
                 rfl
               rw [hd, hline]
               rw [hstepE (fun defs h => by rw [hg] at h; cases h)] at hgood ⊢
-              exact (ihl _ st acc hv hnd hres hgood).shift _
+              exact (ihl _ st acc hv hnd hres hgood).shift _ hnd
             | badExt =>
               have hline : lineDiags cfg fs stack0 file spelled l
                   = [mk "InputParsingException" "bad-extern" (showPath p) default] := by
@@ -380,7 +479,7 @@ theorem doLoads_sim (cfg : Cfg) (fs : FS) (n : Nat)
                 rfl
               rw [hd, hline]
               rw [hstepE (fun defs h => by rw [hg] at h; cases h)] at hgood ⊢
-              exact (ihl _ st acc hv hnd hres hgood).shift _
+              exact (ihl _ st acc hv hnd hres hgood).shift _ hnd
             | notText pos =>
               have hline : lineDiags cfg fs stack0 file spelled l
                   = [mk "InputParsingException" "extern-not-utf8" (showPath p) pos] := by
@@ -392,7 +491,7 @@ theorem doLoads_sim (cfg : Cfg) (fs : FS) (n : Nat)
                 rfl
               rw [hd, hline]
               rw [hstepE (fun defs h => by rw [hg] at h; cases h)] at hgood ⊢
-              exact (ihl _ st acc hv hnd hres hgood).shift _
+              exact (ihl _ st acc hv hnd hres hgood).shift _ hnd
 
 theorem resInv_nil_keep {m : Resolved} {done : List APath} (v : Visit) (hv : v.file? = none) (vs : List Visit)
     (hd : vs.filterMap Visit.file? = done) (h : ResInv m done) : ResInv m ((vs ++ [v]).filterMap Visit.file?) := by
@@ -456,7 +555,7 @@ theorem parseOne_sim (cfg : Cfg) (fs : FS) (n : Nat) :
           rw [hpo]
           have h1 := doLoads_sim cfg fs n ih stack file spelled loads {} st acc hv hnd hres hgood.prefix
           generalize loads.foldl (visitStep cfg fs (visitOrder cfg fs n) (stack ++ [file]) spelled) acc = out1 at h1 hgood ⊢
-          rcases h1 with h1 | ⟨new1, hout1, ⟨hnd1, res1, st1, errs1, hok, hv1, hreg1, hres1, herr1, hperm1⟩ | ⟨hnd1, f', p', herr⟩⟩
+          rcases h1 with h1 | ⟨new1, hout1, ⟨hnd1, res1, st1, errs1, hok, hv1, hreg1, hres1, herr1, hperm1⟩ | ⟨hnd1, f', p', herr, hfc⟩⟩
           · rw [h1]; exact Or.inl rfl
           · rw [hok]
             simp only
@@ -467,7 +566,7 @@ theorem parseOne_sim (cfg : Cfg) (fs : FS) (n : Nat) :
               simp [programKeys, visitDefs]
             rcases registerAll_cases st1.reg
               (walkContents { file := showPath file, keys := cfg.keys, defaultDeriving := cfg.defaultDeriving } [] contents).regs
-              hnd_st1 with ⟨hk, hreg⟩ | ⟨hk, s, herr⟩
+              hnd_st1 with ⟨hk, hreg⟩ | ⟨hk, s, herr, hfc⟩
             · rw [defs_file] at hk hreg
               obtain ⟨hnames, hoks⟩ := hgood
               have hndpos := hoks (.file file spelled stack loads contents) (by simp)
@@ -524,10 +623,16 @@ theorem parseOne_sim (cfg : Cfg) (fs : FS) (n : Nat) :
                 unfold finishFile
                 simp only [herr]
               rw [hff]
-              exact Or.inr ⟨new1 ++ [.file file spelled stack loads contents], by simp [hout1],
-                Or.inr ⟨by rw [hkeys]; exact hk, s.file, s.pos, rfl⟩⟩
+              refine Or.inr ⟨new1 ++ [.file file spelled stack loads contents], by simp [hout1],
+                Or.inr ⟨by rw [hkeys]; exact hk, s.file, s.pos, rfl, ?_⟩⟩
+              have hT : st.reg.map (·.key) ++ (new1.flatMap visitSites).map (·.1) = st1.reg.map (·.key) := by
+                rw [hreg1, List.map_append, sites_keys]
+              rw [List.flatMap_append, firstCollision_append, firstCollision_none_of_nodup _ _ (by rw [hT]; exact hnd_st1)]
+              simp only
+              rw [hT, sites_walkContents] at *
+              simpa [visitSites] using hfc
           · rw [herr]
-            exact PostV.of_raised new1 [.file file spelled stack loads contents] (by simp [hout1]) hnd1 f' p'
+            exact PostV.of_raised new1 [.file file spelled stack loads contents] (by simp [hout1]) hnd1 f' p' hfc
 
 /-! ### whole programs -/
 
@@ -542,7 +647,8 @@ theorem front_run_visits (cfg : Cfg) (fs : FS) (builtins : Registry) (root : APa
           ∧ st.reg = builtins ++ (rootVisits cfg fs root).flatMap visitDefs)
       ∨ (¬ (programKeys builtins (rootVisits cfg fs root)).Nodup ∧
         ∃ f p, parseOne cfg fs (fs.files.length + 2) [] (normPath root) root { reg := builtins }
-          = .error (.raised "TypeResolvingException" f p)) := by
+          = .error (.raised "TypeResolvingException" f p)
+          ∧ programCollision builtins (rootVisits cfg fs root) = some (f, p)) := by
   have h := parseOne_sim cfg fs (fs.files.length + 2) [] (normPath root) root { reg := builtins }
     ([normPath root], []) (Visited.root root) hb (fun f p hne => absurd rfl hne) hgood
   rcases h with h | ⟨new, hout, h⟩
@@ -554,11 +660,11 @@ theorem front_run_visits (cfg : Cfg) (fs : FS) (builtins : Registry) (root : APa
       have : rootVisits cfg fs root = [] ++ new := hout
       rw [this]; rfl
     subst hnew
-    rcases h with ⟨hnd, res, st', errs, hok, _, hreg, _, herr, hperm⟩ | ⟨hnd, f, p, herr⟩
+    rcases h with ⟨hnd, res, st', errs, hok, _, hreg, _, herr, hperm⟩ | ⟨hnd, f, p, herr, hfc⟩
     · refine Or.inl ⟨hnd, res, st', hok, ?_, hreg⟩
       rw [herr, List.nil_append]
       simpa [programDiags] using hperm
-    · exact Or.inr ⟨hnd, f, p, herr⟩
+    · exact Or.inr ⟨hnd, f, p, herr, hfc⟩
 
 /-- **The multi-file front end reports exactly the whole-program specification — import diagnostics included.**
     Let `visits = rootVisits cfg fs root` be the import tree below `root` (`Front/SpecProgram.lean`). Assume
@@ -598,7 +704,7 @@ theorem front_duplicate_raised (cfg : Cfg) (fs : FS) (builtins : Registry) (root
       ∃ f p, front cfg fs builtins root = .abort (.raised "TypeResolvingException" f p) := by
   constructor
   · intro hdup
-    rcases front_run_visits cfg fs builtins root hb hgood with ⟨hnd, _⟩ | ⟨_, f, p, herr⟩
+    rcases front_run_visits cfg fs builtins root hb hgood with ⟨hnd, _⟩ | ⟨_, f, p, herr, _⟩
     · exact absurd hnd hdup
     · exact ⟨f, p, by unfold front; rw [herr]⟩
   · rintro ⟨f, p, hfront⟩ hdup
